@@ -591,6 +591,7 @@ func TestC38(t *testing.T) {
 		"distinct = feature vector (mode, MaxConns, MaxPendingRequests, caller bucket, set of outcomes seen, plain-Do callers present); non-trivial = at least one call of the scenario timed out, overflowed or saw a connection error")
 	r.Assume("slack 1 s; stalls are released only after every judged call has returned or was recorded blocked at deadline + 1 s, and then not before the blocked call is 3 s past its deadline")
 	r.Assume("overload guard: 4 canary goroutines of this process sleep 5 ms in a loop and record how late they wake up. A call that returned by itself later than deadline + 1 s is judged only if no canary woke up more than 100 ms late while the call ran; a call still blocked 3 s past its deadline (freed only by the end of the stall) is judged unless a canary was more than 1 s late. Unjudged late calls are counted (skipped_late_under_load) and reported inconclusive")
+	r.Assume("slot-race rounds additionally run, next to the k callers, k control goroutines started by the same goroutine at the same moment that only wait on a fresh timer of the same duration: their worst wake-up delay counts like a canary's")
 	r.Assume("'connection error' = io.EOF / io.ErrUnexpectedEOF / closed pipe / any net.Error / ErrBrokenChunk / ErrConnectionClosed / the pipeline's 'connection has been stopped' error")
 	r.Assume("'transmitted' = the X-Id header line of the request reached the tag server (parsed, or found in the input drained when a connection was closed)")
 
@@ -801,9 +802,13 @@ func TestC38(t *testing.T) {
 			sr := runSlotRound(i, round, kk, timeout, srv)
 			desc := fmt.Sprintf("slot-race batch %d round %d: fresh PipelineClient MaxConns=1 MaxPendingRequests=1, hanging Dial, %d callers lined up in front of the enqueue, DoTimeout(%v)", i, round, kk, timeout)
 			guard := func(limit time.Duration, what string) bool { // true = judge
-				if lag := cn.maxLag(sr.started, sr.end); lag > limit {
+				lag := cn.maxLag(sr.started, sr.end)
+				if cl := time.Duration(sr.controlLag.Load()); cl > lag {
+					lag = cl // the round's own control goroutines (plain timers of the same duration) were late
+				}
+				if lag > limit {
 					r.Event("skipped_late_under_load", 1)
-					r.Inconclusive(fmt.Sprintf("%s: %s, but a canary goroutine of this process woke up %v late in that window (overload)", desc, what, lag))
+					r.Inconclusive(fmt.Sprintf("%s: %s, but a canary / control goroutine of this process woke up %v late in that window (overload)", desc, what, lag))
 					return false
 				}
 				return true
@@ -819,7 +824,7 @@ func TestC38(t *testing.T) {
 						map[string]any{"round": desc, "id": id, "stacks_when_blocked_3s_past_deadline": sr.stacks})
 				}
 			}
-			for _, c := range sr.calls {
+			for _, c := range sr.returned {
 				ncalls++
 				switch {
 				case blocked[c.ID]:
